@@ -425,9 +425,9 @@ class BaseImageLayerState(MatplotlibLayerState):
 
         def slice_to_bound(slc, size):
             min, max, step = slc.indices(size)
-            n = (max - min - 1) // step
-            max = min + step * n
-            return (min, max, n + 1)
+            n = len(range(min, max, step))
+            max = min + step * (n - 1)
+            return (min, max, n)
 
         if bounds is None:
 
